@@ -333,8 +333,11 @@ ProcProposal(cs, c, e, g, recEpoch, nm) ==
                                         !.out = Append(@, [name |-> nm.name, kind |-> "commit", g |-> g, author |-> c, gen |-> cs.g[g].sentH,
                                                            parent |-> cs.g[g].chain, ts |-> nm.ts, rank |-> nm.rank,
                                                            tag |-> cs.g[g].rec.data.nid,
-                                                           eff |-> Eff("propcommit", {}), refs |-> cs1.g[g].props,
-                                                           result |-> ApplyEff(MlsState(cs, g), Eff("propcommit", {}), cs1.g[g].props)])]
+                                                           \* (the MLS library drops the committer's own Update proposals)
+                                                           eff |-> Eff("propcommit", {}),
+                                                           refs |-> {p \in cs1.g[g].props : ~(p.k = "update" /\ p.a = c)},
+                                                           result |-> ApplyEff(MlsState(cs, g), Eff("propcommit", {}),
+                                                                               {p \in cs1.g[g].props : ~(p.k = "update" /\ p.a = c)})])]
                  IN  Ret(SetProc(cs2, e, "processed", g, cur), "Proposal")
       [] OTHER -> Ret(SetProc(cs, e, "processed", g, cur), "IgnoredProposal")
 
@@ -357,6 +360,10 @@ ProcOwnPending(cs, c, e, g, recEpoch) ==
         cs2 == Merged(cs1, g, k)
     IN  AfterMerge(cs2, g, e, recEpoch, c, ev[k].eff.kind = "self_update" /\ ev[k].refs = {})
 
+\* an own commit met again: the record is re-synced from the MLS group -- which fails, without any effect, while the group's
+\* nostr id collides with another held group's (the state the finding SyncFailsAfterMerge leaves behind)
+SyncedOwnCommit(cs, g) == IF NidCollides(cs, g) THEN Ret(cs, "Err") ELSE Ret(Sync(cs, g), "Commit")
+
 \* C: own message that MLS cannot decrypt
 ProcOwnEcho(cs, c, e, g) ==
     LET r == ProcOf(cs, e) IN
@@ -366,7 +373,7 @@ ProcOwnEcho(cs, c, e, g) ==
             IF ev[e].kind = "app" /\ mk \in DOMAIN cs.msgs
             THEN Ret(SetProc([cs EXCEPT !.msgs[mk].state = "processed"], e, "processed", r.g, r.epoch), "App")
             ELSE IF r.state = "created" THEN Ret(cs, "Err") ELSE Ret(cs, "Unprocessable")
-      [] r.state = "processed_commit" -> Ret(Sync(cs, g), "Commit")
+      [] r.state = "processed_commit" -> SyncedOwnCommit(cs, g)
       [] OTHER -> Ret(cs, "Unprocessable")
 
 RECURSIVE Process(_, _, _, _, _)
@@ -395,7 +402,7 @@ ProcWrongEpoch(cs0, c, e, g, recEpoch, nm, n, isCommit) ==
              cs5 == [cs4 EXCEPT !.notif = Append(@, [g |-> g, target |-> n, head |-> e,
                                                       invalidated |-> {k[2] : k \in inv}, refetch |-> retry])]
          IN  Process(cs5, c, e, nm, FALSE)
-    ELSE IF ProcOf(cs, e).state = "processed_commit" THEN Ret(Sync(cs, g), "Commit")
+    ELSE IF ProcOf(cs, e).state = "processed_commit" THEN SyncedOwnCommit(cs, g)
     ELSE FailUnprocessable(cs, e, g, recEpoch)
 
 \* c hands itself event e.  nm = [name, ts, rank] for an event the call may create.
